@@ -302,6 +302,17 @@ def export_cases(draw, tier):
     return {"d": spec}
 
 
+@st.composite
+def register_cases(draw, tier):
+    """ Only the generator that stresses the classical-register bookkeeping
+    (block measurements, post-selections, bit preparations, swaps, discards,
+    overriding re-measurements). """
+    spec = draw(measure_blocks(tier))
+    while spec["layers"] and excluded(spec):
+        spec = dict(spec, layers=spec["layers"][:-1])
+    return {"d": spec}
+
+
 def classical_eval(diagram):
     """ Tensor (axes dom + cod) of a classical post-processing circuit, read
     from its boxes: ClassicalGate arrays, bit swaps, daggered Bits. """
@@ -551,6 +562,10 @@ def selftest():
 core.register("C13", [
     Facet("export", export_cases, check_export, n_quick=640, shards_quick=8,
           rule=RULE),
+    Facet("export_registers", register_cases, check_export, n_quick=800,
+          shards_quick=8, rule="as export, with the generator that measures "
+          "in blocks, post-selects, prepares, swaps, discards and overrides "
+          "bits (classical-register bookkeeping of the exporter)"),
     Facet("roundtrip", roundtrip_cases, check_roundtrip, n_quick=300,
           shards_quick=4, rule="from_tk(to_tk(c)) is well-typed and has "
           "c's mixed evaluation"),
